@@ -9,6 +9,10 @@ size_t g_k;        /* arbitrary but fixed index */
 size_t g_j;        /* arbitrary but fixed token index */
 char g_snap_k;     /* original value of the caller's byte g_k (set by the harness) */
 const char* g_snap_word; /* original value of words[g_j] (set by the harness) */
+/* the "arbitrary but fixed" ghost indices must really be arbitrary: static objects are zero-initialised unless a
+   goto-instrument contract pass havocs them, so every harness sets them explicitly as its first statement */
+size_t nondet_size(void);
+#define GHOST_INDICES_ARBITRARY() do { g_k = nondet_size(); g_j = nondet_size(); g_in_len = nondet_size(); } while (0)
 /* offset of pointer p relative to pointer base (same object) -- avoids pointer relations on havocked pointers */
 #define VOFF(p, base) ((size_t)(__CPROVER_POINTER_OFFSET(p) - __CPROVER_POINTER_OFFSET(base)))
 /* str_split functional specification vocabulary */
